@@ -102,7 +102,7 @@ def _expectation_oracle(sx, sh, rew, absorbing, pi, g):
     return W, Q, D
 
 
-def eval_discounted(sx, shape, gamma, combo, via='table'):
+def eval_discounted(sx, shape, gamma, combo, via='table', calls=1):
     sh = SHAPES[shape].with_(gamma=F(gamma))
     g = sh.gamma
     rew = sym_rewards(sx, sh, -1, 1)
@@ -112,7 +112,8 @@ def eval_discounted(sx, shape, gamma, combo, via='table'):
         pi = _policy_matrix(sx, sh, combo)
         pol = _mk_policy(sx, sh, pi, via)
         with sx.must_not_raise('evaluate'):
-            res = pol.evaluate_on(mdp)
+            for _ in range(calls):
+                res = pol.evaluate_on(mdp)
         absorbing = implicit_absorbing(sh, rew)
         W, Q, D = _expectation_oracle(sx, sh, rew, absorbing, pi, g)
         for s in range(sh.S):
@@ -220,7 +221,8 @@ def _closed_classes(sh, pi, absorbing):
     return classes, R
 
 
-def eval_undiscounted(sx, shape, combo):
+def eval_undiscounted(sx, shape, combo, calls=1):
+    """calls=2: the same policy object is evaluated twice on the same MDP object; the second answer is checked"""
     sh = UNDISC[shape]
     rew = sym_rewards(sx, sh, -1, 0)
     L, AL = sh.slabels, sh.alabels
@@ -229,7 +231,8 @@ def eval_undiscounted(sx, shape, combo):
         pi = _policy_matrix(sx, sh, combo)
         pol = _mk_policy(sx, sh, pi, 'table')
         with sx.must_not_raise('evaluate'):
-            res = pol.evaluate_on(mdp)
+            for _ in range(calls):
+                res = pol.evaluate_on(mdp)
         absorbing = implicit_absorbing(sh, rew)
         # menu rows are concrete: recover plain numbers for the structural analysis
         pic = {s: {a: (0 if (not is_sym(v) and v == 0) else 1) for a, v in pi[s].items()} for s in pi}
@@ -265,6 +268,59 @@ def eval_undiscounted(sx, shape, combo):
         sx.observe('V', [res.state_value[L[s]] for s in range(sh.S)])
 
 
+def eval_undiscounted_symbolic(sx):
+    """SYMBOLIC chain probabilities at discount 1: the policy enters state 1 with probability p, state 1 pays r1 <= 0 per step and
+    leaks to the goal with probability q.  Any q > 0, however small, makes every value finite (r1/q ...); q = 0 makes state 1 a
+    closed class: minus infinity there - and at state 0 for any p > 0, however small - iff r1 < 0."""
+    p = sx.real('p_enter', 0, 1)
+    q = sx.real('q_leak', 0, 1)
+    r0a, r0b, r1 = sx.real('r_0_0', -1, 0), sx.real('r_0_1', -1, 0), sx.real('r_1_0', -1, 0)
+    c = sx.const
+    rows = {(0, 0): {1: c(1)}, (0, 1): {2: c(1)}, (1, 0): {1: 1 - q, 2: q}, (2, 0): {2: c(1)}}
+    rw = {(0, 0): r0a, (0, 1): r0b, (1, 0): r1, (2, 0): 0}
+    avail = {0: [0, 1], 1: [0], 2: [0]}
+    from msdm.core.mdp import QuickTabularMDP, TabularPolicy
+    from msdm.core.distributions import DictDistribution
+    import numpy as rnp
+    with facade(sx):
+        mdp = QuickTabularMDP(next_state_dist=lambda s, a: DictDistribution(rows[(s, a)]), reward=lambda s, a, ns: rw[(s, a)],
+                              actions=lambda s: tuple(avail[s]), initial_state_dist=DictDistribution({0: c(1)}),
+                              is_absorbing=lambda s: s == 2, discount_rate=1.0)
+        mdp._state_list = (0, 1, 2)
+        mdp._action_list = (0, 1)
+        data = [[p, 1 - p], [c(1), c(0)], [c(1), c(0)]]
+        if sx.sym:
+            from symx.symnp import SymArray
+            data = SymArray(data)
+        else:
+            data = rnp.array(data, dtype=float)
+        pol = TabularPolicy.from_state_action_lists(state_list=(0, 1, 2), action_list=(0, 1), data=data)
+        with sx.must_not_raise('evaluate'):
+            res = pol.evaluate_on(mdp)
+        v0, v1 = res.state_value[0], res.state_value[1]
+        leaks = bool(q > 0)
+        enters = bool(p > 0)
+        costly = bool(r1 < 0)
+        if leaks:
+            sx.prove(not core._is_inf(v1), 'leaky-loop-value-finite[1]')
+            sx.prove(not core._is_inf(v0), 'leaky-loop-value-finite[0]')
+            if not core._is_inf(v1) and not core._is_inf(v0):
+                # stated multiplied through by q (the values themselves reach r1/q)
+                sx.prove_eq(v1 * q, r1, 'leaky-loop-value-is-r-over-q', tol=F(1, 10**7))
+                sx.prove_eq(v0 * q, p * (r0a * q + r1) + (1 - p) * r0b * q, 'value-through-the-leaky-loop[0]', tol=F(1, 10**7))
+        else:
+            if costly:
+                sx.prove(core._is_inf(v1) and v1 < 0, 'closed-costly-class-minus-inf[1]')
+                if enters:
+                    sx.prove(core._is_inf(v0) and v0 < 0, 'minus-inf-for-any-positive-entry-probability[0]')
+                else:
+                    sx.prove_eq(v0, r0b, 'never-entered-trap-does-not-count[0]', tol=F(1, 10**7))
+            else:
+                sx.prove_eq(v1, 0, 'free-loop-worth-0[1]', tol=F(1, 10**7))
+                sx.prove_eq(v0, p * r0a + (1 - p) * r0b, 'value-through-the-free-loop[0]', tol=F(1, 10**7))
+        sx.observe('V', [v0, v1])
+
+
 def jobs(tier):
     quick = tier == 'quick'
     o = dict(timeout_ms=60000, budget_s=600, max_paths=3000)
@@ -283,3 +339,8 @@ def jobs(tier):
     for i, sh in enumerate(UNDISC):
         for combo in policies(sh, tier):
             yield ('eval_undiscounted', dict(shape=i, combo=list(combo)), o)
+        for combo in policies(sh, 'quick')[:(2 if quick else 6)]:
+            yield ('eval_undiscounted', dict(shape=i, combo=list(combo), calls=2), o)
+    for i in ([1, 3] if quick else range(len(SHAPES))):
+        yield ('eval_discounted', dict(shape=i, gamma='1/2', combo=list(policies(SHAPES[i], 'quick')[-1]), calls=2), o)
+    yield ('eval_undiscounted_symbolic', dict(), dict(o, timeout_ms=120000))
